@@ -15,7 +15,7 @@ MATRIX_FNS = ["matrix", "lemma_cell_sem", "lemma_cmp_rekey", "lemma_cell_missing
 
 FRAME_FNS = ["lemma_frame", "lemma_frame_group", "lemma_frame_match", "lemma_frame_leaf", "lemma_frame_cmp", "lemma_frame_row", "lemma_frame_rows", "lemma_frame_rows_all", "lemma_frame_rows_of", "lemma_frame_defined", "lemma_frame_elems", "lemma_agree_elem"]
 REWRITE_FNS = ["rewrite_search", "rewrite", "lemma_rw_refl", "lemma_rw_wf"]
-BATCH_FNS = ["batch", "seqtail", "shake_needles", "single_pattern", "classify_member", "entry_tail", "mapping_tail", "bool_value", "number_value", "lemma_ac_one", "lemma_kinds_push", "lemma_no_merged_push", "lemma_rs_any", "lemma_pairs_aligned", "lemma_pairs_any", "lemma_single_quant", "lemma_ac_search", "lemma_ac_member", "lemma_ac_any", "lemma_single_kind", "lemma_exact_empty", "lemma_any_ctx_push", "lemma_any_regex_push", "lemma_any_group_push", "lemma_any_ident_take", "lemma_group_ok_push"]
+BATCH_FNS = ["batch", "seqtail", "shake_needles", "single_pattern", "classify_member", "entry_tail", "mapping_tail", "bool_value", "number_value", "list_flags", "unmatched_key", "lemma_ac_one", "lemma_kinds_push", "lemma_no_merged_push", "lemma_rs_any", "lemma_pairs_aligned", "lemma_pairs_any", "lemma_single_quant", "lemma_ac_search", "lemma_ac_member", "lemma_ac_any", "lemma_single_kind", "lemma_exact_empty", "lemma_any_ctx_push", "lemma_any_regex_push", "lemma_any_group_push", "lemma_any_ident_take", "lemma_group_ok_push"]
 
 PROPS = {
     "C15": {
